@@ -155,12 +155,23 @@ def _places(j, acc):
             _places(x, acc)
 
 
+STRUCTS = {}      # adt path -> list of field type dicts, for plain structs of the workspace (set by build_view)
+
+
+def _comp_types(tk):
+    if tk.get("k") == "tuple" and tk.get("a"):
+        return tk["a"]
+    if tk.get("k") == "adt" and tk.get("p") in STRUCTS:
+        return STRUCTS[tk["p"]]
+    return None
+
+
 def scalarise_tuples(j):
-    """split tuple-typed locals that are only built by a tuple aggregate / copied whole between such locals / read and
-    written by first-level field projections into one local per component"""
+    """split tuple-typed locals (and locals of small plain structs of the workspace) that are only built by one aggregate / copied
+    whole between such locals / read and written by first-level field projections into one local per component"""
     locals_ = j["locals"]
     n = len(locals_)
-    cand = {i for i, l in enumerate(locals_) if l.get("tk", {}).get("k") == "tuple" and l["tk"].get("a") and i > j["argc"]}
+    cand = {i for i, l in enumerate(locals_) if _comp_types(l.get("tk", {})) and i > j["argc"]}
     if not cand:
         return j
     # a local stays a candidate only if every occurrence is of an allowed form
@@ -176,7 +187,8 @@ def scalarise_tuples(j):
                 pl, rv = s["pl"], s["rv"]
                 rk = rv["k"]
                 whole_dst = not pl["p"]
-                if rk == "agg" and rv.get("ak") == "tuple" and whole_dst:
+                if rk == "agg" and whole_dst and (rv.get("ak") == "tuple" or (rv.get("ak") == "adt" and rv.get("adt") in STRUCTS
+                                                                              and len(rv.get("ops", [])) == len(STRUCTS[rv.get("adt")]))):
                     acc = []
                     _places(rv["ops"], acc)
                     for p in acc:
@@ -214,7 +226,7 @@ def scalarise_tuples(j):
     comp = {}
     new_locals = list(locals_)
     for i in sorted(cand):
-        tys = locals_[i]["tk"]["a"]
+        tys = _comp_types(locals_[i]["tk"])
         comp[i] = []
         for ci, tk in enumerate(tys):
             nl = {"ty": tk.get("p") or tk.get("n") or tk.get("k"), "tk": tk, "name": (locals_[i].get("name") or "_%d" % i) + ".%d" % ci}
@@ -247,7 +259,7 @@ def scalarise_tuples(j):
         for s in b["s"]:
             if s["k"] == "assign" and not s["pl"]["p"] and s["pl"]["l"] in cand:
                 rv = s["rv"]
-                if rv["k"] == "agg" and rv.get("ak") == "tuple":
+                if rv["k"] == "agg" and (rv.get("ak") == "tuple" or rv.get("adt") in STRUCTS):
                     for ci, op in enumerate(rv["ops"]):
                         ns.append({"k": "assign", "pl": {"l": comp[s["pl"]["l"]][ci], "p": []}, "rv": {"k": "use", "op": rw(op)},
                                    "sp": s.get("sp"), "exp": s.get("exp", False)})
@@ -284,6 +296,13 @@ def known_names(rules_dir, extra_files=()):
 
 def build_view(prog, known):
     """a Program whose bodies have unknown helpers inlined; helpers that were inlined and are private are removed"""
+    STRUCTS.clear()
+    for path, a in prog.adts.items():
+        vs = a.get("variants") or []
+        # only structs no rule knows by name (a helper's private result type); the domain types stay whole
+        if a.get("crate") in WORKSPACE and a.get("kind", "struct") in ("struct", "Struct", None) and len(vs) == 1 \
+                and 1 <= len(vs[0].get("fields", [])) <= 6 and path.split("::")[-1] not in known:
+            STRUCTS[path] = [f.get("tk", {"k": "other"}) for f in vs[0]["fields"]]
     v = View(prog, known)
     p2 = copy.copy(prog)
     p2.bodies = {}
